@@ -918,6 +918,15 @@ func c19Step(s *c19State, a c19Action, faults bool, depth int) (*c19State, []str
 						viols = append(viols, "fault/cookie-for-unstored-session/"+cls+"|"+fctx)
 					}
 				}
+				// whatever the failed request left behind: the running server serves the service providers the store holds - the same
+				// ones a server started afresh over that store would serve
+				fs.failAt = 0
+				live := observeRegistry(fsrv)
+				if fresh, ferr := c19Server(fs); ferr == nil {
+					if fr2 := observeRegistry(fresh); fr2 != live {
+						viols = append(viols, "fault/registry-differs-from-store-after-failed-request/"+cls+"|running server: "+live+"\nserver restarted over the same store: "+fr2+"\n"+fctx)
+					}
+				}
 			}
 		}
 	}
